@@ -43,6 +43,8 @@ pub struct Ctx {
     pub threads: usize,
     pub replay: Option<PathBuf>,
     pub level: &'static str,
+    /// false: run normally but leave the evidence file alone (tool runs such as the TSan build)
+    pub write_evidence: bool,
 }
 
 impl Ctx {
@@ -570,7 +572,7 @@ pub fn finish(ctx: &Ctx, sum: Summary, fin: Finish) -> i32 {
         "violations": new_violations,
         "verdict": if new_violations > 0 { "violated" } else if inconclusive { "inconclusive" } else { "held-on-observed" },
     });
-    if ctx.replay.is_none() {
+    if ctx.replay.is_none() && ctx.write_evidence {
         let _ = std::fs::write(ctx.evidence_path(), serde_json::to_string_pretty(&ev).unwrap());
     }
     println!(
